@@ -117,6 +117,7 @@ def build():
         if is_string:
             expr += ".as_str()"
         f.replace(h.start(), h.end(), expr, "R9", "str method chain %s -> shim calls" % h.group(2).strip())
+    rules.r16_map_or(f)
     rules.r9_method_to_fn(f, "trim", "str_trim")
     rules.r9_method_to_fn(f, "is_empty", "str_is_empty")
     f.replace_all(r"str_trim\(&line\)", "str_trim(line)", "R9", regex=False) if False else None
